@@ -407,7 +407,8 @@ class ExplicitSymplecticIntegrator(TableauIntegrator):
 
     def step(self, rhs, initial_time, initial_state, constants, timestep):
         current_time = D.ar_numpy.copy(initial_time)
-        self.dState *= 0.0
+        # a fresh buffer: multiplying the previous increment by zero would keep any inf/nan it holds
+        self.dState = D.ar_numpy.zeros_like(self.dState)
 
         for stage in range(D.ar_numpy.shape(self.tableau_intermediate)[0]):
             if stage == 0:
